@@ -82,6 +82,10 @@ impl Report {
         }
     }
 
+    pub fn outcome_n(&mut self, o: &str, n: u64) {
+        *self.outcomes.entry(o.to_string()).or_insert(0) += n;
+    }
+
     pub fn sample(&mut self, v: impl FnOnce() -> Value) {
         if self.samples.len() < self.max_samples {
             self.samples.push(v());
